@@ -25,6 +25,7 @@ EXPLANATION = (
     'blocks with the published algorithm (field order of canonical request and string to sign, HMAC chain, scope, authorization header), and the encoder per URL '
     'component (path: quote once with "/" safe; query: sorted, percent-encoded with %20 semantics). Rules C16.R1-R4.'
     ' Added with the seeded-defect rounds: only requests built by _prepare_request leave the client (no follow_redirects / auth / verb helpers), transfer unit >= 1 (shared with C20), joined strings returned unprocessed; fallback to the whole-pipeline term digest of the design tree when the helper anchors are restructured.'
+    ' Round 6: the length declared to upload_stream is the length of the object the stream reads (traced through the wrapper chain), no read left in flight.'
 )
 NOT_DECIDED = 'whether the HTTP library re-encodes the URL it is given (third-party behaviour); signatures are not recomputed on concrete inputs'
 TRUSTED = ['the published AWS Signature Version 4 algorithm as frozen in this module', 'hashlib / hmac', 'CPython ast']
